@@ -13,6 +13,8 @@ class Serpent(object):
 
     def __init__(self,K):
         self.K = Bits(K,bitorder=1)
+        if len(self.K)>256:
+            raise ValueError("Serpent key length must not exceed 256 bits")
         if len(self.K)<256:
             self.K = self.K//Bits(1,1)
         self.K.size = 256
